@@ -27,7 +27,8 @@ const cF = 8.0 // safety factor on the forward error bounds
 func isNaN(x float64) bool { return math.IsNaN(x) }
 
 func sameF(a, b float64) bool {
-	return math.Float64bits(a) == math.Float64bits(b) || (isNaN(a) && isNaN(b))
+	// numerically identical (0 and -0 are the same number; NaN equals NaN)
+	return a == b || (math.IsNaN(a) && math.IsNaN(b))
 }
 
 func absMax(xs []float64) float64 {
@@ -572,7 +573,7 @@ func drawData(t *rapid.T, n int, positive bool) []float64 {
 	}
 	xs := make([]float64, n)
 	for i := range xs {
-		z := rapid.Float64Range(-1, 1).Draw(t, "z")
+		z := gen.Unit(t, "z")
 		if rapid.IntRange(0, 9).Draw(t, "repeat") == 0 && i > 0 {
 			xs[i] = xs[i-1]
 			continue
